@@ -43,51 +43,143 @@ func instrBefore(a, b ssa.Instruction) bool {
 // ---------------------------------------------------------------- R-SEEKREAD
 
 func runSeekRead(r *core.Run) {
-	fn := r.Prog.SSAFunc("", "binaryReaderSeeker", "Bytes")
+	// the back end over an io.ReadSeeker: the type of package parse with a field of an interface type that has both
+	// Seek and Read, and its Bytes method (with the unexported helpers of the same receiver it calls)
+	var fn *ssa.Function
+	for _, f := range methodsNamed(r, "", "Bytes") {
+		if t, ok := f.Signature.Recv().Type().(*types.Pointer); ok {
+			if st, ok := t.Elem().Underlying().(*types.Struct); ok {
+				for i := 0; i < st.NumFields(); i++ {
+					if it, ok := st.Field(i).Type().Underlying().(*types.Interface); ok {
+						hasSeek, hasRead := false, false
+						for j := 0; j < it.NumMethods(); j++ {
+							switch it.Method(j).Name() {
+							case "Seek":
+								hasSeek = true
+							case "Read":
+								hasRead = true
+							}
+						}
+						if hasSeek && hasRead {
+							fn = f
+						}
+					}
+				}
+			}
+		}
+	}
 	if fn == nil {
-		r.BrokenAnchor("parse.binaryReaderSeeker.Bytes")
+		r.BrokenAnchor("the Bytes method of the io.ReadSeeker back end")
 		return
 	}
-	seeks, reads := callsNamed(fn, "Seek"), callsNamed(fn, "Read")
-	locks, unlocks := callsNamed(fn, "Lock"), callsNamed(fn, "Unlock")
+	unit := []*ssa.Function{fn}
+	seen := map[*ssa.Function]bool{fn: true}
+	site := map[*ssa.Function]*ssa.Call{}
+	for i := 0; i < len(unit); i++ {
+		for _, b := range unit[i].Blocks {
+			for _, in := range b.Instrs {
+				if c, ok := in.(*ssa.Call); ok {
+					g := c.Call.StaticCallee()
+					if g != nil && !seen[g] && g.Signature.Recv() != nil && recvName(g) == recvName(fn) && g.Object() != nil && !g.Object().Exported() && len(g.Blocks) > 0 {
+						seen[g] = true
+						site[g] = c
+						unit = append(unit, g)
+					}
+				}
+			}
+		}
+	}
+	var seeks, reads, locks, unlocks []*ssa.Call
+	for _, f := range unit {
+		seeks = append(seeks, callsNamed(f, "Seek")...)
+		reads = append(reads, callsNamed(f, "Read")...)
+		locks = append(locks, callsNamed(f, "Lock")...)
+		unlocks = append(unlocks, callsNamed(f, "Unlock")...)
+	}
 	if len(reads) == 0 {
-		r.Unknown("binaryReaderSeeker.Bytes shape", fn.Pos(), "no Read call")
+		r.Unknown("seeker back end shape", fn.Pos(), "no Read call")
 		return
 	}
-	off := fn.Params[3]
+	off := ssa.Value(fn.Params[3])
+	// is v the requested offset (the method's own parameter, possibly handed to a helper)?
+	var isOff func(v ssa.Value, depth int) bool
+	isOff = func(v ssa.Value, depth int) bool {
+		if v == off {
+			return true
+		}
+		if p, ok := v.(*ssa.Parameter); ok && depth < 3 {
+			if c := site[p.Parent()]; c != nil {
+				for i, q := range p.Parent().Params {
+					if q == p && i < len(c.Call.Args) {
+						return isOff(c.Call.Args[i], depth+1)
+					}
+				}
+			}
+		}
+		return false
+	}
+	// does a precede b, possibly across the helper boundary (a in the caller before the call of b's function)?
+	before := func(a, b ssa.Instruction) bool {
+		for depth := 0; depth < 3; depth++ {
+			if a.Parent() == b.Parent() {
+				return instrBefore(a, b)
+			}
+			c := site[b.Parent()]
+			if c == nil {
+				return false
+			}
+			b = c
+		}
+		return false
+	}
 	for i, rd := range reads {
 		ok := false
 		for _, sk := range seeks {
-			if len(sk.Call.Args) == 2 && sk.Call.Args[0] == ssa.Value(off) && instrBefore(sk, rd) {
-				if c, isC := sk.Call.Args[1].(*ssa.Const); isC && c.Int64() == 0 {
+			if len(sk.Call.Args) == 2 && isOff(sk.Call.Args[0], 0) && before(sk, rd) {
+				if c, isC := sk.Call.Args[1].(*ssa.Const); isC && ssaIntConst(c) && c.Int64() == 0 {
 					ok = true
 				}
 			}
 		}
-		r.Check(ok, fmt.Sprintf("binaryReaderSeeker.Bytes read #%d preceded by Seek(off, SeekStart)", i+1), rd.Pos(), "", "a Read is not dominated by Seek(off, io.SeekStart) with the requested offset: the result depends on where an earlier call left the underlying reader (ReadAt/Seek contracts break after a short read or an interleaved reader)")
+		r.Check(ok, fmt.Sprintf("seeker back end read #%d preceded by Seek(off, SeekStart)", i+1), rd.Pos(), "", "a Read is not dominated by Seek(off, io.SeekStart) with the requested offset: the result depends on where an earlier call left the underlying reader (ReadAt/Seek contracts break after a short read or an interleaved reader)")
 		locked := false
 		for _, l := range locks {
-			if instrBefore(l, rd) {
+			if before(l, rd) {
 				locked = true
 			}
 		}
-		r.Check(locked, fmt.Sprintf("binaryReaderSeeker.Bytes read #%d under the mutex", i+1), rd.Pos(), "", "Seek+Read are not serialised by the mutex")
+		r.Check(locked, fmt.Sprintf("seeker back end read #%d under the mutex", i+1), rd.Pos(), "", "Seek+Read are not serialised by the mutex")
 	}
-	// fields: only r, size, mu (a cached position would be shared mutable state between clones)
+	// fields: the wrapped reader, the size and the mutex; a second integer (a cached position) would be state shared between clones
 	if t, ok := fn.Signature.Recv().Type().(*types.Pointer); ok {
 		if st, ok := t.Elem().Underlying().(*types.Struct); ok {
+			ints := 0
 			var extra []string
 			for i := 0; i < st.NumFields(); i++ {
-				switch st.Field(i).Name() {
-				case "r", "size", "mu":
+				ft := st.Field(i).Type()
+				switch u := ft.Underlying().(type) {
+				case *types.Basic:
+					if u.Info()&types.IsInteger != 0 {
+						ints++
+						if ints > 1 {
+							extra = append(extra, st.Field(i).Name())
+						}
+					} else {
+						extra = append(extra, st.Field(i).Name())
+					}
+				case *types.Interface:
+				case *types.Struct:
+					if n, ok := ft.(*types.Named); !ok || n.Obj().Pkg() == nil || n.Obj().Pkg().Path() != "sync" {
+						extra = append(extra, st.Field(i).Name())
+					}
 				default:
 					extra = append(extra, st.Field(i).Name())
 				}
 			}
-			r.Check(len(extra) == 0, "binaryReaderSeeker keeps no position state", fn.Pos(), "", fmt.Sprintf("extra fields %v: BinaryReader.Clone shares the back end, so back-end position state makes clones interfere", extra))
+			r.Check(len(extra) == 0, "seeker back end keeps no position state", fn.Pos(), "", fmt.Sprintf("extra fields %v: BinaryReader.Clone shares the back end, so back-end position state makes clones interfere", extra))
 		}
 	}
-	r.Check(len(unlocks) >= len(locks), "binaryReaderSeeker.Bytes unlocks", fn.Pos(), "", "fewer Unlock than Lock calls")
+	r.Check(len(unlocks) >= 1 && len(locks) >= 1, "seeker back end locks and unlocks", fn.Pos(), "", "the mutex is not both locked and unlocked")
 }
 
 // ----------------------------------------------------------------- R-CTORERR
